@@ -278,6 +278,17 @@ func famCompare(dir string, seed int64, tier string) {
 		pairs = append(pairs, pair{a, b})
 	}
 	pairs = append(pairs, pair{nil, nil})
+	// byte slices that ALIAS one another: views of one buffer with the same start and different lengths, with
+	// different starts, and the very same slice (an implementation may not decide by address)
+	for _, k := range []sb.Kind{sb.KindBytes, sb.KindRef} {
+		buf := payload(r, 64)
+		same := bytes.Repeat([]byte{'z'}, 64)
+		for _, c := range [][2][]byte{{buf[:9], buf[:17]}, {buf[:17], buf[:9]}, {buf[:1], buf[:2]}, {buf[:32], buf[:32]}, {buf[:0], buf[:5]}, {buf[3:9], buf[3:20]},
+			{same[:8], same[8:16]}, {same[:8], same[4:13]}, {same[:20], same[:20]}, {buf[5:30], buf[6:30]}} {
+			pairs = append(pairs, pair{[]sb.Token{{Kind: k, Value: c[0]}}, []sb.Token{{Kind: k, Value: c[1]}}},
+				pair{[]sb.Token{tokI(1), {Kind: k, Value: c[0]}, tokI(2)}, []sb.Token{tokI(1), {Kind: k, Value: c[1]}, tokI(1)}})
+		}
+	}
 	// a stream against itself extended by one more token, for every boundary token (a proper prefix sorts first,
 	// whatever the extra token is: Min, Max, end markers, ...)
 	seenKind := map[sb.Kind]int{}
@@ -368,6 +379,9 @@ func famCompare(dir string, seed int64, tier string) {
 		}
 		if pi%7 == 0 || len(ea) > 30000 {
 			apiDecodeBufferForCompare(rep, ea, "a=["+truncate(descTokens(p.a), 300)+"]")
+		}
+		if !nan && len(ea)+len(eb) < 70000 {
+			apiCompareScratch(rep, r, ea, eb, s1, e1, desc)
 		}
 	}
 
